@@ -26,10 +26,13 @@ def only_analyse(h):
 
 
 def gen_histories(ctx, quick):
+    """abstract histories from TLC: every history of Analyse actions only is kept (all orders of all blocks),
+    the others (Decode / Reevaluate / Unrelated interleavings, simulated long histories) are sampled with the seed"""
     out = []
-    plan = [("HistoryGen2.cfg", None, None, 3 if quick else 1)] if quick else [("HistoryGen.cfg", None, None, 1)]
-    plan.append(("HistorySim.cfg", "num=%d" % (36 if quick else 700), 6, 1))
-    for cfg, sim, depth, stride in plan:
+    # (cfg, simulate, depth, number of non-Analyse-only histories kept)
+    plan = [("HistoryGen2.cfg", None, None, 30), ("HistorySim.cfg", "num=4", 6, 24)] if quick else \
+           [("HistoryGen.cfg", None, None, 1200), ("HistorySim.cfg", "num=40", 6, 1500)]
+    for cfg, sim, depth, keep in plan:
         wd = tlc.workdir("c10g")
         spool = os.path.join(wd, "h.spool")
         res = tlc.run("History", cfg, simulate=sim, depth=depth, seed=ctx.seed if sim else None, spool=spool,
@@ -39,10 +42,11 @@ def gen_histories(ctx, quick):
         tlc.cleanup(wd)
         if not hs:
             raise tlc.MachineryError("generator %s produced no history" % cfg)
-        off = ctx.seed % stride if stride > 1 else 0
-        for i, h in enumerate(hs):
-            if stride == 1 or only_analyse(h) or i % stride == off:
-                out.append(h)
+        pure = [h for h in hs if only_analyse(h) and not sim]
+        rest = [h for h in hs if not (only_analyse(h) and not sim)]
+        if len(rest) > keep:
+            rest = ctx.rng.sample(rest, keep)
+        out += pure + rest
         ctx.count("histories_from_" + cfg, len(hs))
     # distinct abstract histories only
     seen, uniq = set(), []
